@@ -19,14 +19,17 @@ META = {
         "draw their sizes from directed families (DESIGN 2.9): 'frac' = sizes just above W/3, W/4, W/2 mixed with small "
         "fillers, 'dup' = repeated sizes, 'tiny' = a size-1/2 piece with demand <=2 next to such pieces on W>=10 (the last "
         "improving column has reduced cost -1/(W//size)), 'common-divisor' = 2-3 sizes all multiples of g in 2..6 on a "
-        "width that is not; the rest uniform; numbers passed as int or integral float, sequences as list or tuple; "
+        "width that is not, 'many-copies' = 2-3 sizes <= W/4 with demands 3-6; the rest uniform; numbers passed as int or integral float, sequences as list or tuple; "
         "solve_cg additionally with max_iter in {default x7, 0, 1, 2}. Exhaustive small scope (sub-checks "
         "*_exhaustive_2pieces, same verdict): every instance with two piece sizes 1<=s1<=s2<=W and demands in 1..2 "
         "(thorough 0..4, not both 0) for W=4..16 (thorough ..20) through solve_cg, and for W=4..12 (thorough ..14) "
-        "through solve_bp. Custom mode: an explicit column pool ('cs-like' = one-piece patterns + all maximal "
+        "through solve_bp; cg_exhaustive_small_pieces: sizes 2<=s1<=s2<=5 (thorough 6), W=7..16 (20), demands 1..6 (8); "
+        "custom mode: cg_custom_exhaustive_cs_like (the two-piece scope walked through custom pricing) and "
+        "*_custom_exhaustive_units (3 unit columns + every subset of <=2 (thorough 3) of 8 fixed composite columns, "
+        "demands in 1..4, through solve_cg and solve_bp). Custom mode: an explicit column pool ('cs-like' = one-piece patterns + all maximal "
         "patterns of a drawn instance with the one-piece patterns as initial columns, i.e. the path of the built-in "
         "mode; all maximal patterns; a random sub-pool of them that still covers every piece; a generic 0-3 valued "
-        "column set), initial columns = a covering subset of the pool, pricing function = enumeration of the pool "
+        "column set; 'units+composites' = all unit columns of 3-4 rows plus 2-4 multi-row columns, demands 1-5), initial columns = a covering subset of the pool, pricing function = enumeration of the pool "
         "returning the column of most negative reduced cost 1 - duals.col (or (None, 0) when none is negative). Oracle: "
         "exact minimum number of rolls/columns by memoised DP over remaining-demand vectors (vf.oracles.cutstock). For "
         "status OPTIMAL/FEASIBLE: patterns fit the width (custom: belong to the pool), counts are positive ints, "
@@ -510,6 +513,26 @@ def units_composites_scope(tier):
                        "none_style": (sum(dem) + k) % 2 == 1, "col_type": "tuple", "cg_max_iter": None}
 
 
+def cs_like_scope(tier):
+    """Custom mode over the two-piece instances of `small_scope` (W <= 16 in both tiers): pool = the one-piece
+    patterns + every maximal pattern, initial columns = the one-piece patterns of the demanded pieces, i.e. the path of
+    the built-in cutting-stock mode walked through `_solve_custom` (3 224 cases quick, 19 344 thorough).  Makes
+    'custom pricing stops 0.1 early' deterministic (e.g. W=11, sizes [1,5], demands [1,2])."""
+    for d in small_scope(tier, wmax_quick=16, wmax_thorough=16):
+        W, sizes, demands = d["W"], d["sizes"], d["demands"]
+        homog = [[W // sizes[j] if i == j else 0 for i in range(2)] for j in range(2)]
+        pool = []
+        for c in homog + [list(p) for p in CS.maximal_patterns(W, sizes)]:
+            if c not in pool:
+                pool.append(c)
+        init = []
+        for j in range(2):
+            if demands[j] > 0 and pool.index(homog[j]) not in init:
+                init.append(pool.index(homog[j]))
+        yield {"family": "exhaustive-cs-like", "sizes_from": None, "W": W, "sizes": sizes, "pool": pool, "init": init,
+               "demands": demands, "none_style": (W + sum(sizes)) % 2 == 1, "col_type": "tuple", "cg_max_iter": None}
+
+
 # ----------------------------------------------------------------------------- known finding (DESIGN §5 row 20)
 def bp_after_branching(desc, v):
     """solve_bp result produced after branching (Result.iterations > 0).  Root-only bp results and every
@@ -527,8 +550,9 @@ SUBS = [
     Sub("cg_exhaustive_2pieces", run_cg, enumerate=lambda tier: small_scope(tier), workers_quick=8, crash="inconclusive"),
     Sub("bp_exhaustive_2pieces", run_bp, enumerate=lambda tier: small_scope(tier, wmax_quick=12, wmax_thorough=14), workers_quick=8, crash="inconclusive"),
     Sub("cg_exhaustive_small_pieces", run_cg, enumerate=lambda tier: small_pieces_scope(tier), workers_quick=4, crash="inconclusive"),
+    Sub("cg_custom_exhaustive_cs_like", run_cg_custom, enumerate=lambda tier: cs_like_scope(tier), workers_quick=4, crash="inconclusive"),
     Sub("cg_custom_exhaustive_units", run_cg_custom, enumerate=lambda tier: units_composites_scope(tier), workers_quick=2, crash="inconclusive"),
     Sub("bp_custom_exhaustive_units", run_bp_custom, enumerate=lambda tier: units_composites_scope(tier), workers_quick=8, crash="inconclusive"),
-    Sub("cg_custom_pricing", run_cg_custom, strategy=lambda tier: pools(tier), quick=300, thorough=2000, workers_quick=2, crash="inconclusive"),
+    Sub("cg_custom_pricing", run_cg_custom, strategy=lambda tier: pools(tier), quick=300, thorough=2000, workers_quick=4, crash="inconclusive"),
     Sub("bp_custom_pricing", run_bp_custom, strategy=lambda tier: pools(tier), quick=250, thorough=1200, workers_quick=4, crash="inconclusive"),
 ]
